@@ -27,7 +27,14 @@ reg = SymbolicRegressor(**kw)
 reg.fit(x, y)
 best = reg.get_best_individual()
 table = [str(i) for i in reg.component_generator._operator_pmf.items]
-print("RESULT " + json.dumps(dict(eq=str(best), fitness=float(best.fitness).hex(), table=table)))
+# two more fits in the same interpreter: the same object again, and a fresh object with the same parameters
+reg.fit(x, y)
+again = reg.get_best_individual()
+fresh = SymbolicRegressor(**kw)
+fresh.fit(x, y)
+other = fresh.get_best_individual()
+print("RESULT " + json.dumps(dict(eq=str(best), fitness=float(best.fitness).hex(), table=table,
+                                  refit=[str(again), float(again.fitness).hex()], fresh=[str(other), float(other.fitness).hex()])))
 """
 
 
@@ -102,6 +109,12 @@ def hash_seed_fits(tier, seed):
         res.setdefault(ci, []).append((hs, cfg, json.loads(line[0][7:])))
     for ci, lst in res.items():
         ref = lst[0]
+        for hs, cfg, r in lst:
+            for what, key in (("the same regressor object fitted a second time", "refit"), ("a fresh regressor with the same parameters", "fresh")):
+                if key in r and r[key] != [r["eq"], r["fitness"]]:
+                    viol.append("same interpreter (PYTHONHASHSEED=%s), same data, parameters and random_state=%d: the first fit gives %r (fitness %s), "
+                                "%s gives %r (%s); config %r" % (hs, cfg["seed"], r["eq"], r["fitness"], what, r[key][0], r[key][1], cfg))
+                    break
         for hs, cfg, r in lst[1:]:
             if r["table"] != ref[2]["table"]:
                 viol.append("operator sampling table differs between PYTHONHASHSEED=%s %r and %s %r (config %r)"
@@ -135,7 +148,8 @@ def check(rep, proof):
         rule="(a) the same population (0-9 individuals, mixed flags, redundant on/off) evaluated serially and with 1-3 worker "
              "processes whose completion order is scrambled by genome-dependent sleeps; slots, fitness values, flags and counts "
              "compared with each other and with Model/EvalPhase.v; (b) SymbolicRegressor fits in fresh interpreter processes under 6 "
-             "PYTHONHASHSEEDs per configuration, best equation / fitness bytes / operator table compared (test)",
+             "PYTHONHASHSEEDs per configuration - each process fits the same object twice and a fresh object once - best equation / "
+             "fitness bytes / operator table compared within and across processes (test)",
         samples=[cases[0]] + fits["samples"],
         correspondence=dict(cases=len(cases), disagreements=len(bad)),
         hash_seed_test=dict(fits=fits["fits"], configurations=fits["configs"], violations=len(fits["viol"]),
